@@ -252,6 +252,43 @@ def run(ctx):
             continue  # content not allowed inside a linkage block? (never seen on the unchanged tree)
         if d3 != d:
             fails2.append({"input": w3, "other": t, "diff": first_diff(d3, d)})
+        # the same inside enclosing scopes: the block's content belongs to the scope the block is written in
+        enc = rng.choice(["namespace W {\n%s\n}\n", "namespace p::q {\n%s\n}\n", "namespace {\n%s\n}\n", "namespace o { inline namespace i {\n%s\n} }\n",
+                          "namespace W {\nint before;\n%s\nint after;\n}\n", "extern \"C++\" {\n%s\n}\n"])
+        try:
+            d4, _ = parse_counting(enc % t.rstrip("\n"))
+            d5, _ = parse_counting(enc % ("extern \"C\" {\n%s\n}" % t.rstrip("\n")))
+        except CxxParseError:
+            continue
+        if d4 != d5:
+            fails2.append({"input": enc % ("extern \"C\" {\n%s\n}" % t.rstrip("\n")), "other": enc % t.rstrip("\n"), "diff": first_diff(d5, d4)})
+    # (typedefs, variables, fields and enumerators run the trailing-comment scan: listed finding C11-plain-then-continuation)
+    # a declaration whose line ends with a plain comment, directly followed (no blank line) by a documented declaration:
+    # the comment belongs to nothing and must not cost the next declaration its documentation
+    fails3 = []
+    tails = ["void f%d(int a); // note", "using U%d = int; /* note */", "struct F%d; // n", "namespace N%d {\nint q;\n} // end", "template <typename T> void g%d(T); // t",
+             "class K%d {\nint m;\n}; // k", "enum E%d {\ne%d\n}; // en", "void h%d() { } // body", "extern \"C\" int c%d(); /* c */",
+             "using namespace u%d; // un", "static_assert(%d < 99, \"x\"); // sa"]
+    n4 = ctx.budget(150, 5000)
+    for i in range(n4):
+        a = rng.choice(tails)
+        a = a % tuple([i] * a.count("%d"))
+        g = c11.Gen(rng)
+        b = c11.tidy("".join(g.items()))
+        scope = rng.choice(["%s", "namespace W {\n%s\n}\n"])
+        whole = scope % (a + "\n" + b)
+        ctx.count(whole, nontrivial=True)
+        try:
+            da, ka = parse_counting(scope % a)
+            db, kb = parse_counting(scope % b)
+            got, _ = parse_counting(whole)
+        except CxxParseError as e:
+            fails3.append({"input": whole, "diff": "rejected: %s" % e})
+            continue
+        exp = merge_data(da, db, ka)
+        if got != exp:
+            fails3.append({"input": whole, "parts": [a, b], "diff": first_diff(got, exp)})
+    ctx.oracle("compose_after_comment", n4, fails3)
     ctx.oracle("nested_equiv", n3, fails1)
     ctx.oracle("extern_transparent", n3, fails2)
     ctx.sample({"pair": pair_texts[0]})
